@@ -2,15 +2,23 @@ import FcpptProofs.C05.NoDrop
 /-!
 # C05 — property theorems: generic operations conserve values
 
-Registry (`Op.all`, programs in FcpptModel/Model/C05.lean): algorithm::map, fold, fold_break, map_concat, map_optional, reverse,
-container::join (2 and 3 containers), pop_back, pop_front, make_move_range (driven by algorithm::map), move_clear,
-get_or_insert, get_or_insert_with_result.
+Registry (`Op.all`, 66 operations, programs in FcpptModel/Model/C05.lean):
+algorithm::map, fold, fold_break, map_concat, map_optional, reverse; container::join (2, 3), pop_back, pop_front, make_move_range
+(driven by algorithm::map), get_or_insert, get_or_insert_with_result, make; move_clear; move_if, move_if_rvalue;
+optional::map, bind, from, alternative, filter, to_container, join, combine, apply, sequence, cat;
+either::map, map_failure, bind, match, success_opt, failure_opt, from_optional, join, apply, sequence, first_success;
+variant::match, apply (1, 2), to_optional; tuple::map, push_back, concat; array::map, push_back, join (2, 3), from_range;
+record::map, permute, multiply_disjoint; grid::map, apply, resize; tree::object(T), push_back(T), push_back(object&&), release,
+tree::map; options::flag / option constructors; parse::sequence / repetition results.
 
-Every theorem is stated for **every** registered operation `o` and **every** well-formed input
-`inp` (`wf o inp`: value categories the operation accepts, pairwise distinct identities below 100,
-answer tables of the right length) — containers of every size.  `outcome o inp` is the observation
-(FcpptModel/Spec/C05.lean) of running the operation's transfer program.
-Only theorems and examples live in this file; lemmas are in `FcpptProofs/C05/`.
+Every theorem is stated for **every** registered operation `o` and **every** well-formed input `inp` (`wf o inp`: the value
+categories the operation can be instantiated with, pairwise distinct identities below 100, answer tables of the right length) —
+containers of every size.  `outcome o inp` is the observation (FcpptModel/Spec/C05.lean) of running the operation's transfer
+program.  Only theorems and examples live in this file; lemmas are in `FcpptProofs/C05/`.
+
+PARTIAL (named in DESIGN.md §5 C05, notes/C05.md): that a C++ expression *is* a move, a copy or a reference hand-over is a fact of
+the language (value categories, temporaries, overload resolution) that the model does not derive — the per-element annotation of
+every program is justified by the differential correspondence on the enumerated shapes; these theorems extend it to all sizes.
 -/
 namespace Fcppt.C05
 
